@@ -120,6 +120,30 @@ class RenderMonitor(Monitor):
         chans, by_name = plain_channels(snap, seq)
         T = max([c["end"] for c in chans] + [0])
         nontrivial = False
+        # ---- samples are a snapshot: what was sampled earlier in this history still extends the way it did then -----
+        held = r.__dict__.get("_c06_held")
+        if held is not None:
+            old_sm, old_ext, X0 = held[1], held[2], held[3]
+            for n, want in old_ext.items():
+                try:
+                    ce = old_sm.channel_samples[n].extend_duration(X0)
+                    got = (arr(ce.amp), arr(ce.det), arr(ce.phase))
+                except Exception as e:
+                    ctx.violation("extension", f"{n}: re-extending samples taken earlier raised {e!r}"[:300], "held-samples-raise")
+                    continue
+                ctx.count("held_samples_reextended")
+                if any(len(a) != len(b) or not np.array_equal(a, b, equal_nan=True) for a, b in zip(got, want)):
+                    ctx.violation("extension", f"{n}: samples taken earlier in the history extend differently after the sequence "
+                                  f"went on (detuning tail then {want[1][-3:]}, now {got[1][-3:]})", "held-samples-changed")
+            r.__dict__["_c06_held"] = None
+        elif r.seq is seq and T > 0:
+            X0 = T + 7
+            try:
+                ext0 = {n: tuple(arr(getattr(cs.extend_duration(X0), k)) for k in ("amp", "det", "phase"))
+                        for n, cs in sm.channel_samples.items() if len(arr(cs.amp)) <= X0}
+                r.__dict__["_c06_held"] = (seq, sm, ext0, X0)
+            except Exception:
+                pass
         for n, c in by_name.items():
             cs = sm.channel_samples[n]
             amp, det, phase = arr(cs.amp), arr(cs.det), arr(cs.phase)
